@@ -703,12 +703,12 @@ def evidence_info():
         "components": {
             "real": ["all of valida from the working tree", "ruamel.yaml (dump and safe load)", "CPython 3.12"],
             "simulated": ["the order in which callers' parse operations are applied to the shared spec structures"],
-            "shim": ["harness-installed __setattr__ write tracer"],
+            "shim": ["digest monitor on the spec structures only (probe documents are not monitored: that is C08's statement)"],
             "real_io": ["rule lists that are plain YAML data are also dumped with ruamel (shared sub-structures become anchors / aliases) and parsed through Schema.from_yaml and Schema.from_yaml_file (a real temporary file - valida's only I/O seam); the reference is the loaded text with every alias expanded"],
             "stubbed": [],
         },
         "assumptions": [
-            "two parses of two fresh deep copies of a spec must compare equal (==); if they do not, that is reported as a violation (the property's own wording), counted as parses_where_equality_unusable",
+            "equality is evaluated on objects nobody has used yet: the shared parse result against an unused second parse of ONE fresh copy of the structure (whose two parses must be equal: the property's own wording), and the k-th parse against an unused witness of the first; what using an object does to it is C08's statement",
             "reference computations run with valida's module-level mutable state put back to import time (isolation.pristine_state)",
             "behavioural equality is checked on the world's 2-3 probe documents only",
             "operation-boundary histories only",
